@@ -12,6 +12,7 @@ import (
 	"fmt"
 	"io"
 	"math/big"
+	"time"
 
 	"github.com/markkurossi/mpc/ot"
 	"github.com/markkurossi/mpc/sha2pc"
@@ -190,6 +191,18 @@ func (w *world) whole(t *rt.Tape, trace bool, res *core.Result) *core.Result {
 		kind = sess.OT
 		res.Reach["whole-circuit.two-sessions"]++
 	}
+	// Another untampered case in four: the garbler process serves a second client at the same
+	// time (own connection and OT object, the same env.Config and circuit value, every garbler
+	// input bit flipped). What the process sends on both connections, taken together, must not
+	// contain both labels of a wire either - an evaluator may take part in both sessions.
+	if !tamper && !small && sess.Next == nil && kind != twopc.OTRSA1024 && kind != twopc.OTRSA2048 && t.Choose(rt.SGen, 3) == 0 {
+		in3 := gen.Inputs(t, circ)
+		in3[0].Xor(in[0], new(big.Int).Sub(new(big.Int).Lsh(big.NewInt(1), uint(circ.Inputs[0].Type.Bits)), big.NewInt(1)))
+		sess.Par = &twopc.Session{Circ: circ, X: in3[0], Y: in3[1]}
+		sess.ParDelay = []time.Duration{0, 0, time.Millisecond, 20 * time.Millisecond}[t.Choose(rt.SGen, 4)]
+		sess.RandStallOneIn = []int{0, 4, 16, 64}[t.Choose(rt.SGen, 4)]
+		res.Reach["whole-circuit.concurrent-sessions"]++
+	}
 	o := twopc.Run(t, sess)
 	core.Finish(res, o.RR)
 	res.Class = "whole-circuit ot=" + twopc.OTNames[kind]
@@ -294,6 +307,32 @@ func (w *world) whole(t *rt.Tape, trace bool, res *core.Result) *core.Result {
 		return res
 	}
 	report(res, "whole-circuit session", Scan(o.GE, r, 8), o.GE)
+	if n := o.Par; n != nil && res.Fail == nil {
+		if !n.GDone || n.GErr != nil {
+			res.Reach["whole-circuit.concurrent-session-broken(C02's business)"]++
+			return res
+		}
+		r2, ok2, cons2 := offsetFromWires(n.OTWires)
+		if !ok2 {
+			return res
+		}
+		if !cons2 {
+			res.Fail = &core.Failure{Clause: "offset-not-global", Detail: "concurrent session: the wires handed to the OT layer do not share one offset L0 xor L1"}
+			return res
+		}
+		both := append(append([]byte(nil), o.GE...), n.GE...)
+		res.Reach["bytes-scanned"] += len(n.GE)
+		report(res, "whole-circuit session served at the same time by the same garbler process", Scan(n.GE, r2, 8), n.GE)
+		if res.Fail == nil {
+			report(res, "two concurrent sessions of one garbler process taken together (offset of the first)", Scan(both, r, 8), both)
+		}
+		if res.Fail == nil && r2 != r {
+			report(res, "two concurrent sessions of one garbler process taken together (offset of the second)", Scan(both, r2, 8), both)
+		}
+		if r2 == r {
+			res.Reach["whole-circuit.concurrent-sessions-share-one-offset"]++
+		}
+	}
 	if n := o.Next; n != nil && res.Fail == nil {
 		if !n.GDone || n.GErr != nil {
 			res.Reach["whole-circuit.second-session-broken(C02's business)"]++
